@@ -176,7 +176,7 @@ def ob_branches(run, tier):
     n = 0
     groups = {}
     for op in BR_OPS:
-        for pre in ([], [0x66], [0x2E], [0x3E], [0x67]):
+        for pre in ([], [0x66], [0x2E], [0x3E], [0x67], [0x66, 0x66], [0x67, 0x67], [0x66, 0x2E], [0x2E, 0x66], [0x66, 0x67], [0x66, 0x66, 0x66]):     # a repeated size prefix is idempotent, not a toggle
             for size in (1, 2, 4):
                 for d in DISP[size]:
                     bs = bytes(pre + op) + d.to_bytes(size, 'little') + b'\x90' * 4
